@@ -569,8 +569,36 @@ func registerMisc(e *Engine) {
 	reg("syscall.Getenv", func(fr *frame, a []value) value { return tuple{"", false} })
 	reg("internal/reflectlite.TypeOf", func(fr *frame, a []value) value { return iface{} })
 	reg("errors.Is", func(fr *frame, a []value) value {
-		x, y := a[0].(iface), a[1].(iface)
-		return boolV(equals(fr, nil, x, y))
+		// errors.Is: equality, then an Is(error) bool method, then Unwrap() error chains
+		// (Unwrap() []error is not modelled).
+		target := a[1].(iface)
+		cur := a[0].(iface)
+		for depth := 0; depth < 50; depth++ {
+			if cur.t == nil {
+				return target.t == nil
+			}
+			if fr.w.branchV(boolV(equals(fr, nil, cur, target))) {
+				return true
+			}
+			if m := fr.findMethod(cur.t, "Is"); m != nil && m.Signature.Params().Len() == 1 && m.Signature.Results().Len() == 1 {
+				if fr.w.branchV(fr.w.call(fr, 0, m, []value{cur.v, target})) {
+					return true
+				}
+			}
+			m := fr.findMethod(cur.t, "Unwrap")
+			if m == nil || m.Signature.Params().Len() != 0 || m.Signature.Results().Len() != 1 {
+				return false
+			}
+			if _, isSlice := m.Signature.Results().At(0).Type().Underlying().(*types.Slice); isSlice {
+				panic(engineError{"errors.Is over Unwrap() []error is not modelled"})
+			}
+			next, ok := fr.w.call(fr, 0, m, []value{cur.v}).(iface)
+			if !ok {
+				return false
+			}
+			cur = next
+		}
+		return false
 	})
 	reg("unicode/utf8.RuneCountInString", func(fr *frame, a []value) value {
 		if s, ok := a[0].(string); ok {
